@@ -271,7 +271,26 @@ def rule_owned(R):
     R.ob("owned/error-kind", errs == {"BufferTooSmall"}, "the conversion errors are reported as BufferTooSmall (found %s)" % sorted(errs), where=to.span)
 
 
+def rule_decode(R):
+    """the lookups find what the broker sent only if every property identifier decodes to *its own* Property variant: an
+    identifier that is read correctly but wrapped as ResponseTopic (or CorrelationData) makes a request without a response
+    topic look answerable, or sends the reply to another string of the request (shared with C09.props/read)"""
+    from .c09 import property_read_table
+    f = R.f
+    vis, read, built, okup, _vsi = property_read_table(f)
+    R.touch(vis)
+    n = 0
+    for idn in sorted(built):
+        if idn == "Invalid":
+            continue
+        n += 1
+        R.ob("decode/%s" % idn, built.get(idn) == [idn],
+             "property identifier %s decodes to Property::%s and nothing else (builds %s)" % (idn, idn, built.get(idn)), where=vis.span)
+    R.floor("decode", n, 27, "property identifiers decoded")
+
+
 def run(R):
+    R.rule("decode", rule_decode)
     R.rule("lookup", rule_lookup)
     R.rule("target", rule_target)
     R.rule("publication", rule_publication)
